@@ -89,8 +89,20 @@ def validate_message_avps(msg: _AnyMessageType) -> list[Avp]:
 
     logger = logging.getLogger("diameter.node")
 
+    # for a message parsed from the network, whether a mandatory AVP is present
+    # is decided by what was received, as an attribute default or an empty
+    # list would otherwise hide a missing AVP
+    received_avps = getattr(msg, "_received_avps", None)
+
     for gen_def in msg.avp_def:
-        if gen_def.is_required and getattr(msg, gen_def.attr_name) is None:
+        if not gen_def.is_required:
+            continue
+        value = getattr(msg, gen_def.attr_name)
+        is_missing = value is None or value == []
+        if received_avps is not None and (
+                gen_def.avp_code, gen_def.vendor_id) not in received_avps:
+            is_missing = True
+        if is_missing:
             logger.debug(
                 f"mandatory AVP {gen_def.avp_code}, vendor {gen_def.vendor_id} "
                 f"is not set")
